@@ -1,5 +1,7 @@
 (** C04 — tagged collections and decorators are applied as documented (run-time semantics Runtime/RT.v). *)
-From GV Require Import Base.Str Base.Sort Model.Compile Runtime.RT Proofs.SortProofs.
+From GV Require Import Base.Str Base.Sort Model.Compile Runtime.RT Proofs.SortProofs Proofs.RTProofs.
+From Coq Require Import List ZArith.
+Import ListNotations.
 From Coq Require Import Sorting.Permutation.
 
 (** the services injected for a tag are exactly the services carrying it *)
@@ -33,3 +35,39 @@ Theorem C04_decorator_payload : forall dd id v args sr,
   VObj (dd_origin dd) (VStr (dd_tag dd) :: VStr id :: v :: args) [] [] sr =
   VObj (dd_origin dd) ([VStr (dd_tag dd); VStr id; v] ++ args) [] [] sr.
 Proof. reflexivity. Qed.
+
+(** ---- whole-collection statements (Proofs/RTProofs.v) ---- *)
+
+(** the injected list is a permutation of the carriers of the tag ... *)
+Theorem C04_tagged_is_permutation_of_carriers : forall (st : rt) (t : str),
+  Permutation (tagged st t) (map fst (filter (carries t) (rt_services st))).
+Proof. exact tagged_perm. Qed.
+Print Assumptions C04_tagged_is_permutation_of_carriers.
+
+(** ... and for any two positions of it, the earlier element has the strictly higher priority, or the same priority and the
+    strictly smaller name: priority descending, then name ascending, for the whole list *)
+Theorem C04_tagged_order : forall (st : rt) (t : str) (l1 : list str) (n1 : str) (l2 : list str) (n2 : str) (l3 : list str),
+  NoDup (map fst (rt_services st)) ->
+  tagged st t = l1 ++ n1 :: l2 ++ n2 :: l3 ->
+  exists p1 p2 : Z, prio_of st t n1 = Some p1 /\ prio_of st t n2 = Some p2 /\ ((p2 < p1)%Z \/ p1 = p2 /\ str_ltb n1 n2 = true).
+Proof. exact tagged_order_strict. Qed.
+Print Assumptions C04_tagged_order.
+
+(** `!tagged t` injects the list of the services [tagged st t] obtained by Get one after the other, in that order *)
+Theorem C04_tagged_dependency : forall depsf f st b t st' b' v,
+  resolve_dep depsf (S f) st b (DTag t) = (st', b', ROk v) <->
+  (exists vs : list value, gets_chain depsf f st b (tagged st t) st' b' vs /\ v = VList vs).
+Proof. exact resolve_dep_tag_ok. Qed.
+Print Assumptions C04_tagged_dependency.
+
+(** decorators apply in declaration order: the outermost wrapper is produced by the last applicable decorator and receives the
+    result of all earlier ones as the decorated service *)
+Theorem C04_decorators_in_declaration_order : forall depsf f d id l1 dd l2 st b v st1 b1 v1 st2 b2 args,
+  decs_loop depsf f d id l1 st b v = (st1, b1, ROk v1) ->
+  applies d dd = true ->
+  (forall dd' : ddef, In dd' l2 -> lookup (dd_tag dd') (sd_tags d) = None) ->
+  resolve_deps depsf f st1 b1 (dd_deps dd) = (st2, b2, ROk args) ->
+  decs_loop depsf f d id (l1 ++ dd :: l2) st b v =
+  (decorated_state st2 dd, b2, ROk (VObj (dd_origin dd) (VStr (dd_tag dd) :: VStr id :: v1 :: args) [] [] (rt_serial st2 + 1))).
+Proof. exact decs_loop_last. Qed.
+Print Assumptions C04_decorators_in_declaration_order.
